@@ -85,6 +85,41 @@ def judge_threads(got):
     return bad
 
 
+INTERRUPTED = r'''
+import json, os, signal, sys, tempfile, threading, time
+import loky.backend.resource_tracker as rt
+# a SIGINT reaches the launching process while its tracker is being spawned: the signal is blocked during the spawn and surfaces as
+# KeyboardInterrupt when it is unblocked.  The program survives it; the NEXT tracked operation must work, with a live tracker
+real = rt.spawnv_passfds
+fired = {}
+def spawn_and_signal(*a, **k):
+    pid = real(*a, **k)
+    if not fired:
+        fired["pid"] = pid
+        signal.pthread_kill(threading.main_thread().ident, signal.SIGINT)
+    return pid
+rt.spawnv_passfds = spawn_and_signal
+out = {}
+try:
+    rt.ensure_running()
+    out["interrupt"] = "not raised"
+except KeyboardInterrupt:
+    out["interrupt"] = "KeyboardInterrupt"
+rt.spawnv_passfds = real
+fd, path = tempfile.mkstemp(); os.close(fd)
+try:
+    rt.register(path, "file"); rt.unregister(path, "file")
+    out["next_op"] = "ok"
+except BaseException as e:
+    out["next_op"] = repr(e)
+os.unlink(path)
+t = rt._resource_tracker
+out["tracker_pid"] = t._pid
+out["tracker_alive"] = bool(t._pid) and os.path.isdir(f"/proc/{t._pid}")
+print(json.dumps(out))
+'''
+
+
 def run(ctx):
     pr = vlib.prove(ctx, PROP_FILE, ["Lifecycle", "Tracker"])
     plans = [("normal", "loky", 2, "x"), ("signals", "loky", 1, "x"), ("sigkill", "loky", 2, "leaffirst"),
@@ -113,6 +148,13 @@ def run(ctx):
     tbad = judge_threads(threads)
     if tbad:
         fails.append((("threads", trounds, tthreads), tbad, threads, tres["stderr"][-800:]))
+    ires = runner.run_script(INTERRUPTED, vlib.REPO, timeout=120, spare_trackers=True)
+    igot = runner.last_json(ires)
+    if igot is None:
+        fails.append((("interrupted",), ["interrupted-launch scenario did not complete"], None, ires["stderr"][-800:]))
+    elif igot["next_op"] != "ok" or not igot["tracker_alive"]:
+        fails.append((("interrupted",), [f"SIGINT during the spawn of the tracker ({igot['interrupt']}), then a tracked operation: {igot['next_op']}; "
+                                         f"tracker alive afterwards: {igot['tracker_alive']}"], igot, ires["stderr"][-800:]))
     if fails:
         plan, bad, got, err = fails[0]
         rp = vlib.write_replay(ctx, "real", {"kind": "tracker behaviour in a real process tree deviates", "plan": plan, "why": bad,
@@ -146,6 +188,10 @@ def replay(ctx, path):
         storm = runner.last_json(runner.run_script(tree_scen.STORM, vlib.REPO, timeout=200, args=(r["plan"][1],)))
         print(storm)
         return 1 if (storm is None or storm["died_of_signals"]) else 0
+    if r["plan"][0] == "interrupted":
+        got = runner.last_json(runner.run_script(INTERRUPTED, vlib.REPO, timeout=120, spare_trackers=True))
+        print(got)
+        return 1 if (got is None or got["next_op"] != "ok" or not got["tracker_alive"]) else 0
     if r["plan"][0] == "threads":
         got = runner.last_json(runner.run_script(tree_scen.THREADS, vlib.REPO, timeout=300, args=(r["plan"][1], r["plan"][2])))
         bad = judge_threads(got)
